@@ -118,7 +118,10 @@ WriteOps == {"ins", "roi", "upd", "upsert", "del", "idel", "delmin", "delmax", "
 (*   fill  [h, k, n, v]  ReplaceOrInsert of the keys k .. k+n-1 in ascending order with versions *)
 (*                       v .. v+n-1; reply = how many of them replaced an item                   *)
 (*   drain [h, n, max]   n times DeleteMin (DeleteMax); reply = how many returned an item        *)
-RunOps   == {"fill", "drain"}
+(*   refill [h, v]       ReplaceOrInsert of every key the handle holds, ascending, with versions  *)
+(*                       v, v+1, ...; reply = how many replaced an item (all of them)            *)
+RunOps   == {"fill", "drain", "refill"}
+Refilled(s, v) == [i \in 1..Len(s) |-> <<Key(s[i]), v + i - 1>>]
 Fill(s, k, n, v) ==
   SelectSeq(s, LAMBDA x : Key(x) < k) \o [i \in 1..n |-> <<k + i - 1, v + i - 1>>]
     \o SelectSeq(s, LAMBDA x : Key(x) > k + n - 1)
@@ -143,6 +146,7 @@ Reply(a) ==
     [] a.op = "scan"   -> Scan(T(a), a)
     [] a.op = "fill"   -> Cardinality({x \in KeysOf(T(a)) : x >= a.k /\ x <= a.k + a.n - 1})
     [] a.op = "drain"  -> IF a.n < Len(T(a)) THEN a.n ELSE Len(T(a))
+    [] a.op = "refill" -> Len(T(a))
     [] OTHER           -> 0                                   \* clone, clear, nop
 
 After(a) ==      \* contents of handle a.h after a write
@@ -162,8 +166,9 @@ Do(a) ==
          /\ UNCHANGED <<deg, api>>
     [] a.op \in RunOps ->
          /\ Live(a.h)
-         /\ trees' = [trees EXCEPT ![a.h] = IF a.op = "fill" THEN Fill(T(a), a.k, a.n, a.v)
-                                                ELSE Drained(T(a), a.n, a.max)]
+         /\ trees' = [trees EXCEPT ![a.h] = CASE a.op = "fill"   -> Fill(T(a), a.k, a.n, a.v)
+                                                  [] a.op = "drain"  -> Drained(T(a), a.n, a.max)
+                                                  [] a.op = "refill" -> Refilled(T(a), a.v)]
          /\ UNCHANGED <<deg, api>>
     [] a.op = "clone" ->                  \* the new handle is the next free number
          /\ Live(a.h) /\ a.h2 = Len(trees) + 1
